@@ -982,6 +982,12 @@ def render_partitioned(r, iface, rng, location="http://svc.invalid/endpoint", sc
             break
         if external == before:
             break
+    # out-of-line namespaces that import each other in a cycle of three or more (known finding D35: a document
+    # reached while another document of the cycle is still loading merges incomplete tables)
+    def reaches(a, b, seen=()):
+        return any(j == b or (j not in seen and reaches(j, b, seen + (j,))) for j in uses[a] if j in external)
+    cyc = [ns for ns in external if reaches(ns, ns)]
+    import_cycle3 = any(len([m for m in cyc if reaches(ns, m) and reaches(m, ns)]) >= 3 for ns in cyc)
     for ns in range(n):
         mode = rng.choice(["ximport", "ximport", "wimport"]) if ns in external else "inline"
         for bi, block in enumerate(schemas[ns]):
@@ -1006,7 +1012,8 @@ def render_partitioned(r, iface, rng, location="http://svc.invalid/endpoint", sc
     iface_url = url_for("interface.wsdl") if split_wsdl else None
     self_import = rng.random() < 0.2
     docs = {}
-    plan = {"root": root_url, "blocks": {}, "split_wsdl": split_wsdl, "self_import": self_import}
+    plan = {"root": root_url, "blocks": {}, "split_wsdl": split_wsdl, "self_import": self_import,
+            "import_cycle3": import_cycle3}
 
     def fill_imports(block, ns, base_url):
         def locate(j):
